@@ -349,3 +349,6 @@ Definition idset_discard (id : nat) (l : list nat) : list nat := filter (fun k =
 (* for x in l: state = body(state, x), stopping at the first exception *)
 Fixpoint foldM {S A} (f : S -> A -> res S) (l : list A) (s : S) : res S :=
   match l with [] => Ok s | x :: r => bind (f s x) (foldM f r) end.
+
+(* the five scheduling methods of a Scheduler *)
+Inductive pymethod := M_cyclic | M_minutely | M_hourly | M_daily | M_weekly.
